@@ -410,6 +410,29 @@ def size_bound_cases(rng):
     return cases
 
 
+def offpath_null_cases():
+    """a null for an OPTIONAL field of an inline StructureReference, the inline class reached directly, as a direct Array
+    item (there a null is the same as an absent key) and through a Map value / Tuple item / Deque item / nested Array
+    (there the real code hands the field the value None): directed, so that the known over-rejection is reproduced on
+    every run"""
+    inl = lambda: {"k": "struct", "name": "Inl1", "required": ["y"], "addl": False, "inline": True,
+                   "fields": [["x", {"k": "integer"}], ["y", {"k": "string"}]]}
+    obj = {"m": [["y", "a"], ["x", None]]}
+    places = [("direct", inl(), obj), ("array", {"k": "seqOf", "item": inl()}, {"l": [obj]}),
+              ("map-value", {"k": "mapOf", "key": {"k": "string"}, "val": inl()}, {"m": [["k", obj]]}),
+              ("tuple-item", {"k": "tuplePos", "items": [inl(), {"k": "integer"}]}, {"l": [obj, 1]}),
+              ("deque", {"k": "seqOf", "seq": "deque", "item": inl()}, {"l": [obj]}),
+              ("nested-array", {"k": "seqOf", "item": {"k": "seqOf", "item": inl()}}, {"l": [{"l": [obj]}]})]
+    cases = []
+    for i, (place, f, d) in enumerate(places):
+        cls = {"k": "struct", "name": f"Off{i}", "required": ["f"], "addl": False, "fields": [["f", f]]}
+        C.fix_accepts(cls)
+        doc = {"m": [["f", d]]}
+        cases.append({"suite": "serde", "mode": "deser", "stream": "offpath-null:" + place, "cls": cls, "doc": doc,
+                      "opts": {"keepUndefined": False, "ignoreInvalidAddl": True}, "re": gen.re_table(cls, doc)})
+    return cases
+
+
 # ------------------------------------------------------------------ real code
 
 def json_to_wire(j):
@@ -592,6 +615,8 @@ def tags(case, impl, model):
     m = (model or {}).get("out") or {}
     if "inFrag" in m:
         out.append("proved-fragment(class_round_trip_partial | _extras_partial | _none_attrs_partial):" + str(bool(m["inFrag"] or m.get("inFragExtras") or m.get("inFragNone"))))
+    if "docStable" in m:
+        out.append("serialized-document-has-string-keys-only(class_text_round_trip_partial):" + str(m["docStable"]))
     if "exactDecl" in m:
         out.append("proved-fragment(deserialize_exact_partial):" + str(m["exactDecl"]))
     out.append("model-scope:" + str(in_model_scope(case["cls"])))
